@@ -12,6 +12,11 @@ var Qty = Type("Qty", Int, func() {
 	Maximum(9)
 })
 
+// a user type whose only validation sits on the elements of a primitive array
+var TagBag = Type("TagBag", func() {
+	Attribute("tags", ArrayOf(String, func() { MaxLength(3) }))
+})
+
 var _ = Service("svc", func() {
 	Method("aliases", func() {
 		Payload(func() {
@@ -22,6 +27,11 @@ var _ = Service("svc", func() {
 			// sibling of the same alias type without any
 			Attribute("base", CodeT, func() { Enum("AB", "CD", "ab") })
 			Attribute("quote", CodeT)
+			Attribute("bag", TagBag)
+			Attribute("bags", ArrayOf(TagBag))
+			// path parameters typed by validating aliases, no validation of their own
+			Attribute("slug", CodeT)
+			Attribute("rev", Qty)
 			Attribute("dims", func() {
 				Attribute("w", Int, func() { Minimum(0) })
 				Attribute("h", Int)
@@ -31,10 +41,10 @@ var _ = Service("svc", func() {
 				Default(3)
 				Minimum(2)
 			})
-			Required("lvl")
+			Required("lvl", "slug", "rev")
 		})
 		HTTP(func() {
-			POST("/aliases")
+			POST("/aliases/{slug}/{rev}")
 			Param("qty")
 		})
 	})
